@@ -70,6 +70,11 @@ func loadHook(spec string, log *[]og.Ref) (func(og.Ref) (any, error), error) {
 					return userObj(n), nil
 				}
 			}
+			if s, ok := r.Pid.(string); ok && strings.HasPrefix(s, "i\xe9d") { // inverse of the "B" hook as well
+				if n, err := strconv.Atoi(s[3:]); err == nil && n >= 0 && strconv.Itoa(n) == s[3:] {
+					return userObj(n), nil
+				}
+			}
 			return nil, nil
 		}, nil
 	case spec == "J":
@@ -135,6 +140,9 @@ func refHook(spec string, log *[]any) (func(any) *og.Ref, error) {
 		return nil, nil
 	case "S":
 		return mk(func(n int) *og.Ref { return &og.Ref{Pid: "id" + strconv.Itoa(n)} }), nil
+	case "B":
+		// string ids that are not valid UTF-8 (8-byte binary oids kept in a Go string)
+		return mk(func(n int) *og.Ref { return &og.Ref{Pid: "i\xe9d" + strconv.Itoa(n)} }), nil
 	case "T":
 		return mk(func(n int) *og.Ref { return &og.Ref{Pid: og.Tuple{"cls", int64(n)}} }), nil
 	case "N":
@@ -593,12 +601,20 @@ func runDictFrom(d og.Dict, spec string) string {
 }
 
 type chunkWriter struct {
-	chunks [][]byte
-	failAt int // 1-based index of the Write that fails; 0 = never
-	writes int
+	chunks  [][]byte
+	failAt  int // 1-based index of the Write that fails; 0 = never
+	writes  int
+	flushes int
 }
 
 var errInjected = errors.New("injected write failure")
+
+// Flush makes the writer look like a buffered one (bufio.Writer, http.Flusher, ...): an encoder that flushes its destination
+// must not let a successful Flush hide a failed Write.  Nothing in the unchanged package calls it.
+func (w *chunkWriter) Flush() error {
+	w.flushes++
+	return nil
+}
 
 func (w *chunkWriter) Write(p []byte) (int, error) {
 	w.writes++
@@ -727,9 +743,13 @@ func handle(line string) string {
 			return "BADCASE"
 		}
 		return runCutsK(pd, su, f[2], ks, []byte(s))
-	case "decr":
+	case "decr", "decrp":
 		if len(f) != 4 {
 			return "BADCASE"
+		}
+		if f[0] == "decrp" { // OpcodeError printed with its position
+			classifyWithPos.Store(true)
+			defer classifyWithPos.Store(false)
 		}
 		pd, su, err := parseCfg(f[1])
 		if err != nil {
